@@ -11,6 +11,7 @@ from . import rules_terms as RT
 from . import rules_zones as RZ
 from . import rules_segments as RSG
 from . import rules_range as RR
+from . import rules_wrapper as RW
 from .facts import AnchorMissing
 
 TRUSTED = [
@@ -44,6 +45,8 @@ def c20(ctx):
     RL.rule_impl_headers(ctx, prog)
     n23 = RK.rule_r23(ctx, prog, roots)
     ctx.floor("R23", n23, 5, "caller-supplied callbacks")
+    n23c = RK.rule_r23_collect(ctx, prog, roots)
+    ctx.floor("R23", n23c, 10, "closures driven by layout-ordered ndarray traversals")
     return dict(
         level="proof",
         explanation="Sufficient condition for layout independence, decided on the resolved MIR of every body: "
@@ -132,6 +135,7 @@ def c04(ctx):
             for bb, t in b.calls():
                 if t["callee"].get("krate") in ("rand", "rand_core"):
                     ctx.ob("R14", "%s/deterministic" % b.key, False, b.where(bb, "term"), "randomness inside maybe_nan", what="nondeterminism")
+    RW.rule_r29_missing_definition(ctx, prog)
     return dict(
         level="other",
         explanation="Soundness conditions of the unsafe re-typing behind NaN removal, decided on MIR/HIR for all 14 element types: "
@@ -216,6 +220,8 @@ def c14(ctx):
     for b in impls:
         ok, detail = RU.audit_unsafe(prog, b, "remove_nan_mut")
         ctx.ob("R3", "%s/strip-sound" % RL.short(b.key), ok, b.where(), detail, what="stripped lane unsound")
+    RW.rule_r28_notnone_transparent(ctx, prog)
+    RW.rule_r29_missing_definition(ctx, prog)
     return dict(
         level="other",
         explanation="Structural clauses of C14: (R15) in fold_skipnan/indexed_fold_skipnan/visit_skipnan/fold_axis_skipnan the ndarray "
